@@ -21,6 +21,7 @@ THEOREMS = [
     "C06.required_iff_not_optional",
     "C06.emitted_valid",
     "C06.default_validates",
+    "C06.literal_becomes_pattern",
     "C06.pattern_accepts_iff_contains_member",
     "C06.pattern_accepts_members",
     "C06.pattern_not_exact",
